@@ -42,6 +42,25 @@ def install():
     return bi
 
 
+class pristine:
+    """context manager: the module globals of brownian_interval are the real ones inside (float re-execution of a path)"""
+
+    def __enter__(self):
+        from torchsde._brownian import brownian_interval as bi
+        import builtins, math
+        self.bi = bi
+        self.saved = (bi._randn, bi.float, bi.math, bi.round)
+        bi._randn = _installed['randn']
+        bi.float = builtins.float
+        bi.math = math
+        bi.round = builtins.round
+        return self
+
+    def __exit__(self, *a):
+        bi = self.bi
+        bi._randn, bi.float, bi.math, bi.round = self.saved
+
+
 STUBS = [
     "brownian_interval._randn -> SymT(real randn values, noise symbols keyed by (seed, shape))",
     "brownian_interval.float -> identity on proxies (isinstance(x, float) preserved)",
